@@ -3,6 +3,6 @@ CONSTANTS
     Paths <- PathsDef
     Contents <- ContentsDef
     Size <- SizeDef
-    Routes = {"object", "index"}
+    Routes = {"object", "index", "lazy"}
     Spellings = {"plain", "slash", "rel"}
 INVARIANT Inv_C02
